@@ -293,6 +293,23 @@ func fieldLoads(v ssa.Value, depth int, seen map[ssa.Value]bool, out *[]*ssa.UnO
 		for _, a := range x.Call.Args {
 			fieldLoads(a, depth+1, seen, out)
 		}
+		// a small helper that reads fields itself: its loads happen at (under the locks of) this call
+		if f := StaticFn(x); f != nil && f.Blocks != nil && f.Parent() == nil && len(f.Blocks) <= 4 && fnPkg(f) != nil && strings.HasPrefix(fnPkg(f).Pkg.Path(), modPath) {
+			instrsOf(f, func(in ssa.Instruction) {
+				if r, ok := in.(*ssa.Return); ok {
+					var inner []*ssa.UnOp
+					for _, rv := range r.Results {
+						fieldLoads(rv, depth+1, seen, &inner)
+					}
+					for _, ld := range inner {
+						if loadContext[ld] == nil {
+							loadContext[ld] = x
+						}
+						*out = append(*out, ld)
+					}
+				}
+			})
+		}
 	case *ssa.Extract:
 		fieldLoads(x.Tuple, depth+1, seen, out)
 	case *ssa.IndexAddr:
@@ -332,6 +349,10 @@ func fieldLoads(v ssa.Value, depth int, seen map[ssa.Value]bool, out *[]*ssa.UnO
 	}
 }
 
+// loadContext: for loads found inside a helper, the call (in the function under analysis) at which
+// they effectively execute.
+var loadContext = map[*ssa.UnOp]ssa.Instruction{}
+
 // loadedUnder: every load of field `key` feeding the branch condition of item `it` is executed
 // with lock class `class` held in at least `mode`.  A condition that tests a value read in an
 // earlier critical section (a stale snapshot) fails this test even if the branch itself sits
@@ -351,11 +372,15 @@ func (c *Ctx) loadedUnder(it Item, key, class string, mode byte) (bool, string) 
 			continue
 		}
 		found = true
-		fl := li.Fns[ld.Parent()]
+		var at ssa.Instruction = ld
+		if ctx := loadContext[ld]; ctx != nil {
+			at = ctx
+		}
+		fl := li.Fns[at.Parent()]
 		if fl == nil {
 			return false, "load outside analysed code"
 		}
-		held := fl.Must[ld].HoldsClass(class)
+		held := fl.Must[at].HoldsClass(class)
 		if held == 0 || (mode == 'W' && held != 'W') {
 			return false, fmt.Sprintf("%s is read at %s without %s held in mode %c (a stale value read in an earlier critical section is re-used)", key, c.P.InstrPos(ld), class, mode)
 		}
